@@ -21,7 +21,7 @@ FACTORS = dict(
     kernel=["tpcn", "rwm"], resample=["mult", "syst"], clustering=[True, False], normalize=[True, False],
     cluster_every=[1, 2, 3, 5], n_max_clusters=[None, 1, 2, 3], split_threshold=[0.5, 1.0, 2.0],
     metric=["ess1", "ess2", "ess3.5", "vol0.5", "vol2"], steps=["default", "n1", "n3", "n2max2", "n1max50"],
-    mode=["vec", "scalar", "blobs"], bc=["none", "periodic", "reflective", "mixed"],
+    mode=["vec", "scalar", "blobs"], bc=["none", "periodic", "reflective", "mixed", "periodic2"], bctype=["list", "tuple"],
     pool=["none", "int1", "int2", "object"], save_every=[None, 1, 3], n_dim=[1, 2, 4], n_particles=["default", 16, 50],
 )
 
@@ -32,7 +32,7 @@ class PoolObject:
 
 
 def valid(row):
-    if row["bc"] == "mixed" and row["n_dim"] < 2:
+    if row["bc"] in ("mixed", "periodic2") and row["n_dim"] < 2:
         return False
     return True
 
@@ -50,7 +50,13 @@ def build_kwargs(row, tmp):
     else:
         vv = float(m[3:])
     ns, nm = {"default": (None, None), "n1": (1, None), "n3": (3, None), "n2max2": (2, 2), "n1max50": (1, 50)}[row["steps"]]
-    per, ref = {"none": (None, None), "periodic": ([0], None), "reflective": (None, [d - 1]), "mixed": ([0], [d - 1])}[row["bc"]]
+    per, ref = {"none": (None, None), "periodic": ([0], None), "reflective": (None, [d - 1]), "mixed": ([0], [d - 1]),
+                "periodic2": ([0, 1], None)}[row["bc"]]
+    # the same index sets as tuples (incl. empty ones for "no such coordinate").  numpy integer arrays are refused by the
+    # constructor (its signature says List[int]) - a clean rejection before any likelihood call, so they are not offered as valid
+    bt = row.get("bctype", "list")
+    if bt == "tuple":
+        per, ref = tuple(per or ()), tuple(ref or ())
     pool = {"none": None, "int1": 1, "int2": 2, "object": PoolObject()}[row["pool"]]
     kw = dict(prior_transform=pt, log_likelihood=like, n_dim=d, n_particles=None if row["n_particles"] == "default" else row["n_particles"],
               ess_ratio=er, volume_variation=vv, vectorize=(mode == "vec"), blobs_dtype=("float64" if mode == "blobs" else None),
@@ -92,6 +98,10 @@ def valid_case(row, seed):
             return out
         H = runs.history(s)
         out["iters"] = len(H["beta"])
+        uall = np.concatenate(H["u"])
+        if np.any(uall < 0) or np.any(uall > 1) or not np.all(np.isfinite(uall)):
+            out["bad"].append(("post-cube", f"{int(np.sum(np.any((uall < 0) | (uall > 1), axis=1)))} of {len(uall)} stored particles lie outside the unit hypercube "
+                               f"(u range [{uall.min():.3f}, {uall.max():.3f}])"))
         beta = float(s.state.get_current("beta"))
         if not abs(1 - beta) < 1e-4:
             out["bad"].append(("post-beta", f"returned with beta={beta}"))
